@@ -412,6 +412,7 @@ def check_c02(run):
     cs.append(("2d-h3-per", fmm_constants(2, 3, [0, 3, 5, 10, 15], periodic=True, stops=(1,), bss=(1, 2, 20))))
     cs.append(("tsm-1d-h4", fmm_constants(1, 4, range(5), mode="tsm", bss=(1, 2, 3))))
     run_fmm_configs(run, "C02", cs, cap=256)
+    trace_campaign(run, "C02", run.tier, modes=(0, 1))
     run.coverage["rule"] = FMM_RULE + "; every operator call made by the library is checked: particles inside the leaf box with original index and data, children distinct children of the parent with true octant codes, sources at the encoded offset (modulo the box when periodic), well separated / adjacent, at the stated level, never an empty list"
     run.coverage["exhaustive"] = True
     run.assumptions += FMM_ASSUME + ["OpenMP executors are covered by C03's check; Hilbert ordering only by C11 (known finding)"]
@@ -507,9 +508,68 @@ def check_c01(run):
         cs.append(("1d-h5-multi", fmm_constants(1, 5, POOL_1D_H5[:6], maxper=3, maxparts=9, bss=(1, 2, 20), stops=(0, 1, 2, 3, 4, 5))))
         cs.append(("2d-h4-multi", fmm_constants(2, 4, POOL_2D_H4[:5], maxper=2, bss=(1, 2, 20), stops=(0, 2, 3))))
     run_fmm_configs(run, "C01", cs)
-    run.coverage["rule"] = FMM_RULE
+    # beyond the enumerated pools: recorded executions of large random trees validated by TLC (nothing lost, nothing twice)
+    trace_campaign(run, "C01", run.tier)
+    run.coverage["rule"] = FMM_RULE + "; plus code->spec trace validation: recorded kernel-call traces of random trees (1-D height 7-8, 2-D height 5-6, 3-D height 4-5, up to 60 particles) must be accepted by FmmTrace.tla"
     run.coverage["exhaustive"] = True
     run.assumptions += FMM_ASSUME
+
+
+# =====================================================================================================
+# code -> spec: traces recorded from the real executors on large random trees, validated by TLC (FmmTrace.tla)
+# =====================================================================================================
+def trace_validate(run, name, dim, height, periodic, mode, nexec, maxn, pid):
+    """Record nexec executions (sequential / OpenMP under a seeded random mock schedule alternate) of trees with up to maxn particles and
+    let TLC accept or reject the concatenated trace: every kernel call must be an enabled batch of the dataflow layer with exactly
+    its logged arguments; End requires that nothing is pending."""
+    binp = need(build("record_fmm_%d_%d" % (dim, int(periodic)), "record_fmm.cpp", ["DIMV=%d" % dim, "PERIODICV=%d" % int(periodic), "CAPV=1024"]), run)
+    rc, out, err = run_bin(binp, [height, run.seed, nexec, maxn, mode], timeout=600)
+    if rc != 0 or not out.startswith('{"e":"Init"'):
+        if rc == 3 or "MISMATCH kind=Crash" in out:
+            run.violation("Crash:" + name, "the executor crashed while a trace was recorded: " + out[-300:], None)
+            return
+        raise vlib.HarnessError("record_fmm failed (%s): %s" % (rc, (err or out)[-300:]))
+    tdir = os.path.join(CACHE, "traces")
+    os.makedirs(tdir, exist_ok=True)
+    tpath = os.path.join(tdir, "%s-%d.ndjson" % (name, os.getpid()))
+    with open(tpath, "w") as f:
+        f.write(out)
+    nlines = out.count("\n")
+    consts = dict(Dim=dim, Height=height, Periodic=periodic, Mode="tsm" if mode else "single", Pool={0}, MaxPerLeaf=1, MaxParts=1, BlockSizes={1},
+                  GroupModes="{FALSE}", StopLevels={2}, Histories='{"full"}', AboveLevelsP1={0}, EmitJson=False, Shard=0, NbShards=1)
+    text = cfg("TraceSpec", consts, [], [], extra="POSTCONDITION Accepted")
+    res = run_tlc("FmmTrace", text, env={"TRACE": tpath}, workers=1, timeout=900, tag=name, keep_json=False)
+    log_txt = open(res.logpath).read()
+    accepted = "Model checking completed. No error has been found." in log_txt and "Accepted" not in [l for l in log_txt.splitlines() if "violated" in l.lower() or "Error" in l].__str__()
+    m = re.search(r"The depth of the complete state graph search is (\d+)", log_txt)
+    consumed = int(m.group(1)) - 1 if m else 0
+    res.ok = True
+    run.add_tlc(name, res, note="FmmTrace.tla on %d recorded executions (%d kernel-call events) of dim %d height %d %s trees with up to %d particles; consumed %d events" % (
+        nexec, nlines, dim, height, "target/source" if mode else "single", maxn, consumed))
+    run.coverage["traces_validated_against_impl"] += nexec
+    run.coverage["trace_events_validated"] = run.coverage.get("trace_events_validated", 0) + consumed
+    if consumed != nlines:
+        lines = out.splitlines()
+        badline = lines[consumed] if consumed < len(lines) else "<end>"
+        # which execution does the rejected line belong to
+        init = [l for l in lines[:consumed + 1] if l.startswith('{"e":"Init"')]
+        keep = os.path.join(vlib.REPLAYS, "%s-trace-%s.ndjson" % (pid, name))
+        os.makedirs(vlib.REPLAYS, exist_ok=True)
+        shutil.copy(tpath, keep)
+        run.violation("TraceRejected:" + name, "TLC rejects the recorded execution at event %d: %s  (execution header: %s)" % (consumed + 1, badline[:200], (init[-1] if init else "")[:200]),
+                      run.write_replay("TraceRejected-" + name, {"kind": "trace", "trace": keep, "dim": dim, "height": height, "periodic": periodic, "mode": mode, "rejected_line": consumed + 1, "event": badline}))
+    else:
+        run.sample({"validated_trace": name, "events": nlines, "first_event": out.splitlines()[0][:300]})
+
+
+def trace_campaign(run, pid, tier, modes=(0,), periodic=False):
+    if tier == "quick":
+        classes = [(1, 7, 20, 40), (2, 5, 12, 40), (3, 4, 6, 30)]
+    else:
+        classes = [(1, 8, 60, 60), (2, 6, 40, 60), (3, 4, 30, 60), (3, 5, 10, 40), (4, 3, 10, 20)]
+    jobs = [(d, h, n, mx, m) for (d, h, n, mx) in classes for m in modes]
+    with ThreadPoolExecutor(max_workers=4) as ex:
+        list(ex.map(lambda j: trace_validate(run, "%s-trace-%dd-h%d-%s%s" % (pid, j[0], j[1], "tsm" if j[4] else "single", "-per" if periodic else ""), j[0], j[1], periodic, j[4], j[2], j[3], pid), jobs))
 
 
 # =====================================================================================================
@@ -658,6 +718,8 @@ def check_c03(run):
                     nrep = sum(int(l.split("=")[1]) for l in out.splitlines() if l.startswith("INFO tlcSchedulesReplayed="))
                     run.coverage["tlc_schedules_replayed"] = run.coverage.get("tlc_schedules_replayed", 0) + nrep
                     report_mismatches(run, "C03", "C03-" + name, sub, [(k, re.sub(r"-(immediate|deferred|tlc)-.*$", "", key), "%s [%s]" % (t, key)) for k, key, t in m2], C03_KINDS)
+    # code -> spec: kernel-call traces of the OpenMP executors under seeded random schedules must respect the dataflow guards of Fmm.tla
+    trace_campaign(run, "C03", run.tier, modes=(0, 1))
     # lifetime of captured variables: the same schedules on the AddressSanitizer build (detect_stack_use_after_return)
     for name, consts in omp_configs(run.tier)[:: (2 if run.tier == "quick" else 1)]:
         pairs, mism, _ = omp_campaign(run, "C03-asan-" + name, consts, "quick", variant="asan", graphs=0, limit=60 if run.tier == "quick" else 400)
@@ -942,6 +1004,7 @@ def cmd_check(args):
     fn, level = CHECKS[pid]
     tier = args.tier or os.environ.get("VERIF_TIER", "quick")
     run = Run(pid, tier, level)
+    run.no_evidence = bool(getattr(args, "no_evidence", False))
     try:
         fn(run)
     except vlib.HarnessError as e:
@@ -981,8 +1044,91 @@ def cmd_replay(args):
         print(out[-3000:])
         mism, summary = parse_harness_output(out)
         return 1 if mism else 0
+    if obj.get("kind") == "trace":
+        consts = dict(Dim=obj["dim"], Height=obj["height"], Periodic=obj["periodic"], Mode="tsm" if obj["mode"] else "single", Pool={0}, MaxPerLeaf=1, MaxParts=1, BlockSizes={1},
+                      GroupModes="{FALSE}", StopLevels={2}, Histories='{"full"}', AboveLevelsP1={0}, EmitJson=False, Shard=0, NbShards=1)
+        res = run_tlc("FmmTrace", cfg("TraceSpec", consts, [], [], extra="POSTCONDITION Accepted"), env={"TRACE": obj["trace"]}, workers=1, timeout=900, tag="replay", keep_json=False)
+        txt = open(res.logpath).read()
+        m = re.search(r"The depth of the complete state graph search is (\d+)", txt)
+        print("consumed %s events; rejected line %s: %s" % (int(m.group(1)) - 1 if m else "?", obj.get("rejected_line"), obj.get("event")))
+        return 1
     log("unknown replay kind")
     return 2
+
+
+def cmd_selftest(args):
+    """Demonstrates that the binding binds (not a registered check):
+       (a) a recorded trace is accepted; the same trace with one corrupted code / one dropped call / one duplicated call is rejected by TLC
+           at exactly that event;
+       (b) each seeded change under seeded/ is applied to a scratch copy of /repo (outside /repo and /verif) and the owning quick check
+           must report a VIOLATION (run with --mutants)."""
+    run = Run("SELFTEST", "quick", "other")
+    binp = need(build("record_fmm_2_0", "record_fmm.cpp", ["DIMV=2", "PERIODICV=0", "CAPV=1024"]), run)
+    rc, out, err = run_bin(binp, [5, 7, 4, 25, 0])
+    lines = out.splitlines()
+    consts = dict(Dim=2, Height=5, Periodic=False, Mode="single", Pool={0}, MaxPerLeaf=1, MaxParts=1, BlockSizes={1}, GroupModes="{FALSE}", StopLevels={2},
+                  Histories='{"full"}', AboveLevelsP1={0}, EmitJson=False, Shard=0, NbShards=1)
+    def consumed(ls, tag):
+        tp = os.path.join(CACHE, "traces", "selftest-%s.ndjson" % tag)
+        os.makedirs(os.path.dirname(tp), exist_ok=True)
+        open(tp, "w").write("\n".join(ls) + "\n")
+        res = run_tlc("FmmTrace", cfg("TraceSpec", consts, [], [], extra="POSTCONDITION Accepted"), env={"TRACE": tp}, workers=1, timeout=600, tag="selftest-" + tag, keep_json=False)
+        m = re.search(r"The depth of the complete state graph search is (\d+)", open(res.logpath).read())
+        return int(m.group(1)) - 1 if m else -1
+    ok = True
+    n = consumed(lines, "clean")
+    log("selftest: clean trace: %d of %d events accepted" % (n, len(lines)))
+    ok &= n == len(lines)
+    # corrupt one position code of an M2L in the middle
+    idx = [k for k, l in enumerate(lines) if l.startswith('{"e":"M2L"')][len(lines) // 40]
+    ev = json.loads(lines[idx]); ev["c"][0] = (ev["c"][0] + 1) % 49
+    bad = lines[:idx] + [json.dumps(ev)] + lines[idx + 1:]
+    n = consumed(bad, "code")
+    log("selftest: M2L code corrupted at event %d -> TLC consumed %d events (%s)" % (idx + 1, n, "rejected there" if n == idx else "NOT rejected where expected"))
+    ok &= n == idx
+    # wrong level in an M2M
+    idx = [k for k, l in enumerate(lines) if l.startswith('{"e":"M2M"')][3]
+    ev = json.loads(lines[idx]); ev["l"] += 1
+    n = consumed(lines[:idx] + [json.dumps(ev)] + lines[idx + 1:], "level")
+    log("selftest: M2M level corrupted at event %d -> consumed %d (%s)" % (idx + 1, n, "rejected there" if n == idx else "NOT rejected where expected"))
+    ok &= n == idx
+    # a dropped call is detected at the first call that reads the incomplete expansion, or at End at the latest
+    idx = [k for k, l in enumerate(lines) if l.startswith('{"e":"P2M"')][1]
+    n = consumed(lines[:idx] + lines[idx + 1:], "dropped")
+    log("selftest: P2M call %d dropped -> consumed %d of %d (%s)" % (idx + 1, n, len(lines) - 1, "rejected" if n < len(lines) - 1 else "NOT rejected"))
+    ok &= n < len(lines) - 1
+    # a duplicated call is rejected at the duplicate
+    idx = [k for k, l in enumerate(lines) if l.startswith('{"e":"P2P"')][0]
+    n = consumed(lines[:idx + 1] + [lines[idx]] + lines[idx + 1:], "dup")
+    log("selftest: P2P call %d duplicated -> consumed %d (%s)" % (idx + 1, n, "rejected at the duplicate" if n == idx + 1 else "NOT rejected where expected"))
+    ok &= n == idx + 1
+    if getattr(args, "mutants", False):
+        sd = os.path.join(VERIF, "seeded")
+        scratch = os.path.join(os.environ.get("TMPDIR", "/tmp"), "verif-selftest-%d" % os.getpid())
+        for name in sorted(os.listdir(sd)) if os.path.isdir(sd) else []:
+            meta_p = os.path.join(sd, name, "meta.json")
+            if not os.path.exists(meta_p):
+                continue
+            meta = json.load(open(meta_p))
+            shutil.rmtree(scratch, ignore_errors=True)
+            os.makedirs(scratch)
+            shutil.copytree(os.path.join(REPO, "src"), os.path.join(scratch, "src"))
+            p = subprocess.run(["patch", "-p1", "-s", "-d", scratch, "-i", os.path.join(sd, name, "patch.diff")], stdout=subprocess.PIPE, stderr=subprocess.STDOUT, text=True)
+            if p.returncode != 0:
+                log("selftest: %s: patch does not apply to the current tree (%s)" % (name, p.stdout.strip()[:100]))
+                continue
+            hit = False
+            for pid in meta.get("caught_by", [meta["property"]]):
+                e = dict(os.environ, VERIF_REPO=scratch)
+                q = subprocess.run([sys.executable, os.path.join(VERIF, "verif.py"), "check", pid, "--tier", "quick", "--no-evidence"], stdout=subprocess.PIPE, stderr=subprocess.STDOUT, text=True, env=e)
+                if q.returncode == 1 and "VIOLATION property=" + pid in q.stdout:
+                    hit = True
+                    break
+            log("selftest: seeded change %s (%s): %s" % (name, meta["property"], "detected by " + pid if hit else "NOT DETECTED"))
+            ok &= hit
+            shutil.rmtree(scratch, ignore_errors=True)
+    log("selftest: " + ("ok" if ok else "FAILED"))
+    return 0 if ok else 1
 
 
 def main():
@@ -994,7 +1140,9 @@ def main():
     c.add_argument("--tier", choices=["quick", "thorough"])
     r = sub.add_parser("replay")
     r.add_argument("path")
-    sub.add_parser("selftest")
+    st = sub.add_parser("selftest")
+    st.add_argument("--mutants", action="store_true")
+    c.add_argument("--no-evidence", action="store_true", help="do not rewrite evidence/<id>.json (used by selftest on scratch copies)")
     args = ap.parse_args()
     if args.cmd == "setup":
         sys.exit(cmd_setup(args))
@@ -1002,6 +1150,8 @@ def main():
         sys.exit(cmd_check(args))
     if args.cmd == "replay":
         sys.exit(cmd_replay(args))
+    if args.cmd == "selftest":
+        sys.exit(cmd_selftest(args))
     ap.print_help()
     sys.exit(2)
 
